@@ -166,6 +166,9 @@ def run(ctx, model=None):
         check_case(ctx, chain_game(n, rng), model if n <= 2100 else None, exact_ok=False, limit=900.0)
     with impl.forced_debug(False):
         check_case(ctx, gen.slow_corridor(2100, rng), None, exact_ok=False, limit=300.0)
+    # the probabilities are a function of the description as it is NOW: solve, edit in place, solve again
+    from props.c10 import edit_between_solves
+    edit_between_solves(ctx, random.Random(ctx.seed + 78), 25 if ctx.quick() else 600, clause="probabilities-of-the-edited-description")
     # wide games beyond every "round" size (4096, 10^4, 2^16 states); values known in closed form
     for n in ([10500, 66000] if ctx.quick() else [4100, 10001, 10500, 65537, 66000, 140000]):
         fan_case(ctx, gen.fan_game(n, rng))
